@@ -268,7 +268,7 @@ Section Mono.
   (* a leaf stays among the good positions, as a node and as the body of a one-character loop *)
   Definition lclo (n : node) : Prop :=
     (forall f fwd, clo (IR f n fwd)) /\
-    (forall lb fwd s, single_step ix unicode h lb n fwd = Some s -> sclo s).
+    (forall fwd s, single_step ix unicode h (negb fwd) n fwd = Some s -> sclo s).
 
   Fixpoint al (n : node) : Prop :=
     match n with
@@ -290,9 +290,9 @@ Section Mono.
     - inversion H; subst. split; [assumption|apply IH; assumption].
   Qed.
 
-  Lemma al_step n lb fwd s : al n -> single_step ix unicode h lb n fwd = Some s -> sclo s.
+  Lemma al_step n fwd s : al n -> single_step ix unicode h (negb fwd) n fwd = Some s -> sclo s.
   Proof.
-    intros Ha Es. destruct n; cbn [al] in Ha; try (exact (proj2 Ha lb fwd s Es)); discriminate Es.
+    intros Ha Es. destruct n; cbn [al] in Ha; try (exact (proj2 Ha fwd s Es)); discriminate Es.
   Qed.
 
   Theorem closed_al : forall f n fwd, al n -> clo (IR f n fwd).
